@@ -2581,3 +2581,7 @@ where
         Ok(())
     }
 }
+
+#[cfg(any(kani, verif_replay))]
+#[path = "/verif/kani/im.rs"]
+pub(crate) mod verif_kani_im;
